@@ -570,6 +570,15 @@ func (r *run) checkConsumer(who string, n *node, s *script, res *result) string 
 		return fail("stream neither ended nor failed within %d reads", 4*len(served)+64)
 	}
 	cls := classify(res.err)
+	switch ood := s.outOfDomain(len(r.p.src.data)); {
+	case ood == oodNegative, ood == oodBeyond && s.method == mChunkReader:
+		// An offset outside the object. Whether that is refused (and with
+		// which error), or answered with an empty or otherwise regular
+		// result, is property C09's; C15 asks that the call returns (above),
+		// does not panic, respects the tasks above it (checkOrdering) and
+		// leaves the other clones and the source alone (their own checks).
+		return ""
+	}
 	switch s.method {
 	case mDiscard:
 		return ""
